@@ -284,7 +284,7 @@ def exec_case(spec):
                 ks = [m.kernel_size[0] for n_, m in e.named_modules() if isinstance(m, nn.Conv2d) and n_ != 'l']
                 res['exported'] = ks
                 if ks != [KSIZES[best]] or res['best'] != best:
-                    res['fails'].append(('supernet:export-is-not-argmax-alpha', 'export() kept kernel sizes %r, argmax(alpha)=%d has kernel %d' % (ks, best, KSIZES[best]), len(spec['ops'])))
+                    res['fails'].append(('supernet:export-is-not-argmax-alpha', 'export() kept kernel sizes %r and best_layer_index() = %d; argmax(alpha) = %d has kernel %d' % (ks, res['best'], best, KSIZES[best]), len(spec['ops'])))
                 if ev is not None and ev != best:
                     res['fails'].append(('supernet:evaluated-onehot-differs-from-export', 'evaluated one-hot at %d, exported %d' % (ev, best), len(spec['ops'])))
             except Exception as ex:
